@@ -20,6 +20,21 @@ CLAIMED = {
         "verified: python re/str/os.environ semantics; delimiters restricted to single non-metacharacters; values "
         "without backslash/newline. Open finding D8 (append of present value not moved last).",
         "DESIGN.md section 5, C12"),
+    "C15": (
+        "python-AST translator regenerating the guard structure of the mutating Eups methods into Coq on every run + "
+        "verified reachability analyser (safe_sound) + dynamic dry-run hashing and write-site spy",
+        "Generated/Guards.v is re-derived from /repo's Eups.py on every run (fail-closed translator); Props/C15.v proves, "
+        "with a soundness theorem for the analyser over a non-deterministic big-step semantics (all opaque conditions, "
+        "iteration counts, exceptions, callee behaviours), that no call classified as writing (database record, cache, "
+        "file system, unknown callee) is reachable from declare/undeclare/unassignTag/remove when noaction is true. "
+        "Dynamically every generated operation is run with noaction=True on the real code with the stack hashed "
+        "before/after, and run with noaction=False under a spy that checks every observed change of the stack happens "
+        "below a call site the translator classified as writing.",
+        "Trusted: Coq kernel; the translator and its classification tables (printed in the evidence; pure-callee "
+        "table cross-checked by the spy, not proved); Model/Guards.v exec as an over-approximation of python control "
+        "flow. Not modelled: eups distrib / admin commands; writes to EUPS_USERDATA and the system temp dir are "
+        "outside the property (listed as not_stack_records).",
+        "DESIGN.md section 5, C15"),
 }
 
 NOT_YET = {}
